@@ -19,6 +19,7 @@ func checkC07(c *Check, a *Anchors) {
 	c07SlotPaired(c, a)
 	c07SlotStates(c, a)
 	dedupNoLockAcrossBlock(c, a)
+	sharedWait(c, a) // a completion signal that is not raised on some path leaves waiters blocked forever
 	c07SemCapacity(c, a)
 	c07RecursionGated(c, a)
 	c07ReentrantWait(c, a)
@@ -288,6 +289,32 @@ func c07RecursionGated(c *Check, a *Anchors) {
 			}
 		}
 	}
+	// the gate may be switched off only by the global watch mode: every other conjunct weakens it
+	var extra []string
+	var conj func(e ast.Expr)
+	conj = func(e ast.Expr) {
+		e = ast.Unparen(e)
+		if be, ok := e.(*ast.BinaryExpr); ok && be.Op == token.LAND {
+			conj(be.X)
+			conj(be.Y)
+			return
+		}
+		if u, ok := e.(*ast.UnaryExpr); ok && u.Op == token.NOT && fieldSel(info, u.X, PkgTask, "Executor", "Watch") {
+			return
+		}
+		isCount := false
+		ast.Inspect(e, func(nd ast.Node) bool {
+			if sel, ok := nd.(*ast.SelectorExpr); ok && fieldSel(info, sel, PkgTask, "Executor", "taskCallCount") {
+				isCount = true
+			}
+			return true
+		})
+		if !isCount {
+			extra = append(extra, exprStr(e))
+		}
+	}
+	conj(gate.Cond)
+	c.Decide(len(extra) == 0, "recursion-gated", "gate-unconditional@"+name, gate.Pos(), "the gate is only switched off by Executor.Watch", "the call-count gate is additionally conditional on `"+strings.Join(extra, "`, `")+"`: a cycle made of tasks for which that condition is false recurses without bound instead of ending with error 204")
 	beforeDedup := a.DedupCall != nil && gate.End() < a.DedupCall.Pos()
 	// the gate is a direct statement of RunTask's body (found by scanning rt.Body.List): every path that reaches a later statement passed it
 	c.Decide(found && beforeDedup, "recursion-gated", "gate@"+name, gate.Pos(), "top-level gate before the dedup call returning *TaskCalledTooManyTimesError",
